@@ -172,15 +172,14 @@ def ArgTy.num : ArgTy → Option Nat
 
 /-- **C15 (the type → field map is the code's).**  Against the tables the translator extracts from `client.py` on every
 run: every non-integer type is written to the field `USER_SERVICE_MAP_SINGLE` / `USER_SERVICE_MAP_ARRAY` give for its
-number, the integer type is in neither map, and the integer rule's literals are `"int_"`, `"legacy_int"`,
-`APIVersion(1, 3)` compared with `>=`. -/
+number, and the integer type is in neither map (its rule — `int_` from 1.3 on, `legacy_int` below — is code, not a table:
+it is tied by the correspondence over versions around the threshold). -/
 theorem c15_service_map_tied (v : Ver) :
     (∀ ty n, ty ≠ .int → ArgTy.num ty = some n →
       serviceField v ty = (Gen.userServiceMapSingle ++ Gen.userServiceMapArray).lookup n) ∧
     (Gen.userServiceMapSingle ++ Gen.userServiceMapArray).lookup 1 = none ∧
-    (Gen.userServiceMapSingle ++ Gen.userServiceMapArray).length = 7 ∧
-    Gen.serviceStrings = ["int_", "legacy_int"] ∧ Gen.serviceVersions = [[1, 3]] ∧ "GtE" ∈ Gen.serviceCompares := by
-  refine ⟨?_, by decide, by decide, by decide, by decide, by decide⟩
+    (Gen.userServiceMapSingle ++ Gen.userServiceMapArray).length = 7 := by
+  refine ⟨?_, by decide, by decide⟩
   intro ty n hne hn
   cases ty <;> simp [ArgTy.num] at hn hne <;> subst hn <;> simp [serviceField, Gen.userServiceMapSingle, Gen.userServiceMapArray, List.lookup]
 
